@@ -34,7 +34,7 @@ def rounds(ctx):
       dict(name='core_d5', consts=speca.constants(MaxDepth=5, MaxDeliver=2, Kinds=CORE - {'DeleteStudy'}), expect=EXPECT,
            backends={'ram': 1.0, 'sqlmem': 0.2}),
       dict(name='all_d4', consts=speca.constants(MaxDepth=4, MaxDeliver=2, Meas={'m1', 'm2', 'mp'}),
-           backends={'ram': 1.0, 'sqlmem': 1.0, 'sqlfile': 0.05}),
+           backends={'ram': 1.0, 'sqlmem': 0.3, 'sqlfile': 0.05}),
       dict(name='all_d3_two_studies', consts=speca.constants(MaxDepth=3, MaxDeliver=3, Studies={'s1', 's2'}, Cells={'c1', 'c2'},
                                                               Cfgs={'max1', 'maxmin2'}),
            backends={'ram': 1.0, 'sqlmem': 1.0}),
@@ -46,7 +46,8 @@ def rounds(ctx):
           MaxDepth=6, MaxDeliver=1, MaxCount=1, MaxId=2, Studies={'s1', 's2'}, Clients={'w1'}, Params={'p1'}, Meas={'m1'}, SharedStudyId=True,
           Kinds={'CreateStudy', 'SuggestTrials', 'CompleteTrial', 'AddMeasurement', 'DeleteTrial', 'SetStudyState', 'DeleteStudy', 'CreateTrial',
                  'UpdateMetadata', 'StopTrial'}),
-           backends={'ram': 1.0, 'sqlmem': 1.0}),
+           # 803 826 histories: all of them on RAM (3 min), a tenth on SQLite (5 ms per history: the full set took over an hour)
+           backends={'ram': 1.0, 'sqlmem': 0.1}),
       dict(name='maxid4_d4', consts=speca.constants(MaxDepth=4, MaxId=4, MaxCount=3, MaxDeliver=3, Params={'p1'}, Meas={'m1'},
                                                     Kinds={'CreateStudy', 'SuggestTrials', 'CreateTrial', 'CompleteTrial',
                                                            'DeleteTrial', 'StopTrial', 'AddMeasurement'}),
